@@ -321,7 +321,28 @@ def rule_import_atomic(ctx) -> None:
                "while the store is already wiped / half refilled, so the turn no longer equals a run that booted without a snapshot") if bad else "")
 
 
+def rule_handler_names(ctx) -> None:
+    """a name bound by `except ... as N` is deleted when the handler ends; a read of N after the guard (the usual
+    `fallback_reason = ... if err is not None`) raises UnboundLocalError exactly on the turns where the optional subsystem had
+    failed - the guard is there, the handler cannot raise, and the turn is aborted all the same"""
+    from .. import hazards
+    fns = sorted(f.qual for f in ctx.prog.funcs.values() if f.module.name.split(".")[:2] in (["clematis", "engine"], ["clematis", "io"], ["clematis", "memory"], ["clematis", "graph"], ["clematis", "adapters"]))
+    n_h = 0
+    for q in fns:
+        fn = ctx.prog.funcs[q]
+        n_h += sum(1 for t in walk_no_defs(fn.node) if isinstance(t, ast.Try) for h in t.handlers if h.name)
+        for h, name, use, path in hazards.unbound_after_handler(ctx, fn):
+            ctx.violation("C20.CONT", ctx.okey(f"{fn.qual}/handler-name-read-after-guard"), fn.loc(use.ast),
+                          f"`{name}` is bound by `except ... as {name}` (L{h.lineno}) and therefore unbound once that handler ends; `{src(use.ast)[:60]}` reads it afterwards with no "
+                          "new binding on the way: UnboundLocalError on exactly the turns where the guarded subsystem failed, so the failure aborts the turn", ctx.path_witness(fn, path))
+    ctx.floor("C20.CONT", "handlers binding the exception to a name in the engine / io / memory / graph / adapters packages", n_h, 20)
+    ctx.holds("C20.CONT", "turn-path/handler-names-not-read-after", "clematis/engine",
+              f"{n_h} `except ... as name` handlers in {len(fns)} functions of the engine, io, memory, graph and adapters packages: no read of the name is reachable from the handler's end without a new binding; "
+              + hazards.controls(ctx, "clematis.engine.health", ["unbound"]))
+
+
 def run(ctx) -> None:
+    rule_handler_names(ctx)
     rule_sanit(ctx)
     rule_import_atomic(ctx)
     rule_sanit_fields(ctx)
